@@ -8,6 +8,7 @@
       Ops:  I loc path | C loc path n w×n | A dst src | K dst src | M loc path n w×n | ML dst src
             | P loc path n w×n | X dst src
       Reply: the full state buffer after EACH op (nops × (N + NV·R) words).
+  mem_wsets <G> <prec> <N> <NV> <op tokens …>   → `off len` of the words each op may write
   mem_cast <G> <prec> <w × R>     → R words of the OTHER precision (`cast<NewScalar>()`)
   mem_table <G> -                 → `acc:off:len` rows of the sub-view table, `R D Dim` sizes
   mem_psum <G> -                  → `rep: … | dof: … | dim: …` prefix sums of a Bundle descriptor
@@ -142,6 +143,20 @@ def memScript (grp prec : String) (args : Array String) : Except String String :
     else .error "bad-prec"
   return " ".intercalate (trace.flatMap (fun b => b.toList.map (hexW prec)))
 
+/-- the write-set `off len` of every op of a script (no buffer needed) -/
+def memWsets (grp : String) (args : Array String) : Except String String := do
+  let some d := GDesc.parse grp | .error s!"unknown-group {grp}"
+  let R := repSize d
+  let c : Cur := ⟨args, 0⟩
+  let (N, c) ← c.nat
+  let (NV, c) ← c.nat
+  let ops ← parseOps N R c #[]
+  for op in ops do checkOp d (N + NV * R) op
+  return " ".intercalate (ops.toList.map (fun op =>
+    match op.writeSet d with
+    | [(o, l)] => s!"{o} {l}"
+    | _ => "- -"))
+
 def memCast (grp prec : String) (args : Array String) : Except String String := do
   let some d := GDesc.parse grp | .error s!"unknown-group {grp}"
   if args.size ≠ repSize d then .error "arity"
@@ -170,6 +185,7 @@ def runMem (op grp prec : String) (args : Array String) : Option String :=
     | .error e => some ("ERR " ++ e)
   match op with
   | "mem_script" => wrap (memScript grp prec args)
+  | "mem_wsets" => wrap (memWsets grp args)
   | "mem_cast" => wrap (memCast grp prec args)
   | "mem_table" => wrap (memTable grp)
   | "mem_psum" => wrap (memPsum grp)
